@@ -157,7 +157,7 @@ def known_lines(rep, pid):
             print('note: listed finding no longer reproduces: %s' % e['what'])
 
 
-def run(pid, tier, seed, explanation, functions, bounds, assumptions, level='other', custom=None):
+def run(pid, tier, seed, explanation, functions, bounds, assumptions, level='other', custom=None, extra=None):
     rep = Report(pid, tier, seed, level)
     runner.workdir(pid)
     if custom:
@@ -177,8 +177,14 @@ def run(pid, tier, seed, explanation, functions, bounds, assumptions, level='oth
     # reachability twins on a sample
     for sh in shapes[:3]:
         qs.append(Query(sh.name + '__twin', harness_src(sh, pid), 'check_twin', 'twin', 60, meta={'shape': sh.name}))
+    extra_replay = None
+    if extra:
+        eq, extra_replay = extra(rep, tier)
+        qs += eq
     runner.run_queries(pid, qs)
-    rep.absorb(qs, make_replay(pid))
+    rep.absorb([q for q in qs if not q.meta.get('extra')], make_replay(pid))
+    if extra_replay:
+        rep.absorb([q for q in qs if q.meta.get('extra')], extra_replay)
     known_lines(rep, pid)
     rep.functions = functions
     rep.bounds = bounds + ['%d shapes (%d named, rest enumerated/seeded); <= %d identifier slots per shape'
